@@ -6,6 +6,12 @@ from itertools import combinations
 
 from y0.algorithm.identify.cg import (
     has_same_confounders,
+    has_same_function,
+    is_not_self_intervened,
+    is_pw_equivalent,
+    nodes_have_same_domain_of_values,
+    parents_attain_same_values,
+    value_of_self_intervention,
     nodes_attain_same_value,
     World,
     _variable_sort_key,
@@ -169,3 +175,47 @@ def parents_match(graph, event, a, b) -> bool:
             strict=False,
         )
     )
+
+
+# ---- Lemma 24 as used by make-cg: both nodes are (still) in the graph, and they are equivalent under the parallel-worlds assumption --
+def lemma_24(cf_graph, event, node, node_at_interventions) -> bool:
+    return (node in cf_graph.nodes()) and (node_at_interventions in cf_graph.nodes()) and is_pw_equivalent(cf_graph, event, node, node_at_interventions)
+
+
+# ---- equivalence under the parallel-worlds assumption: same mechanism, parents that attain the same values, same domain of values -----
+def pw_equivalent(graph, event, node1, node2) -> bool:
+    if node1 not in graph:
+        raise KeyError
+    if node2 not in graph:
+        raise KeyError
+    return (
+        has_same_function(node1, node2)
+        and parents_attain_same_values(graph, event, node1, node2)
+        and nodes_have_same_domain_of_values(graph, event, node1, node2)
+    )
+
+
+# ---- same domain of values: same confounders, same base variable, and either neither is fixed by an intervention on itself or both are
+# ---- fixed to the SAME value
+def same_domain(graph, event, a, b) -> bool:
+    if not has_same_confounders(graph, a, b):
+        return False
+    if a.get_base() != b.get_base():
+        return False
+    if is_not_self_intervened(a) and is_not_self_intervened(b):
+        return True
+    if is_not_self_intervened(a) or is_not_self_intervened(b):
+        return False
+    return value_of_self_intervention(a) == value_of_self_intervention(b)
+
+
+# ---- the value a variable is fixed to by an intervention on itself (its own +base / -base among its subscripts), if any ---------------
+def own_value(a):
+    if not isinstance(a, CounterfactualVariable):
+        return None
+    base = a.get_base()
+    if +base in a.interventions:
+        return +base
+    elif -base in a.interventions:
+        return -base
+    return None
